@@ -8,6 +8,7 @@ UNITS = {
     "splines": {"rlimit": 50},
     "calendars": {"rlimit": 30},
     "linalg": {"rlimit": 50},
+    "linalg_f64": {"rlimit": 50},
 }
 
 COMMON_ASSUMPTIONS = [
@@ -174,11 +175,11 @@ CHECKS = {
         ],
     },
     "C13": {
-        "units": ["linalg"],
+        "units": ["linalg", "linalg_f64"],
         "level": "proof",
         "assumptions": [
             "machine arithmetic treated as mathematical: the generic element type T is an abstract commutative ring (shim/ring.rs); f64 rounding, inf and NaN are outside the model",
-            "Dual and Dual2 arithmetic satisfies the ring axioms of shim/ring.rs (truncated power series); assumed, not re-derived from C01-C03",
+            "Dual and Dual2 arithmetic satisfies the ring axioms of shim/ring.rs (truncated power series) and, as right-hand sides of an f64 matrix, the module axioms of shim/module.rs; assumed, not re-derived from C01-C03",
             "`non-singular` is taken as `regular(a)` (contracts/linalg.vx): every matrix with kernel inside a's and zeros below the diagonal in its first j columns has an invertible entry in column j at or below row j; its textbook equivalence with det != 0 (real parts for dual numbers) is not machine-checked",
             "row_swap, el_swap, argabsmax: assumed contracts (ndarray mutable view splitting / Zip / max_by are outside Verus' reach)",
             "ndarray slices `s![..]`, views, to_owned, Array::zeros, iterator zip/map/sum: shim contracts (contracts/linalg.vx, shim/ndarray.rs, shim/collections.rs)",
